@@ -54,9 +54,9 @@ def drivers():
 
     def pq_args(tier, seed, scale):
         if tier == "quick":
-            return ["-n", str(100 * scale), "-nchan", str(50 * scale), "-nbig", str(12 * scale), "-ntouch", str(40 * scale),
+            return ["-n", str(100 * scale), "-nfill", str(40 * scale), "-nchan", str(50 * scale), "-nbig", str(12 * scale), "-ntouch", str(40 * scale),
                     "-exh-len", "3", "-exh-sample", "15", "-seed", str(seed)]
-        return ["-n", str(1500 * scale), "-nchan", str(600 * scale), "-nbig", str(100 * scale), "-ntouch", str(300 * scale),
+        return ["-n", str(1500 * scale), "-nfill", str(600 * scale), "-nchan", str(600 * scale), "-nbig", str(100 * scale), "-ntouch", str(300 * scale),
                 "-exh-len", "4", "-exh-sample", "100", "-seed", str(seed)]
     return [{"driver": "numdrive", "args": num_args, "replay_args": lambda tier: []},
             {"driver": "pqdrive", "args": pq_args, "replay_args": lambda tier: []}]
